@@ -176,15 +176,32 @@ def findCand (base : String) (used : List String) : Nat → Nat → String → S
   | fuel + 1, k, cand =>
     if cand ∈ used then findCand base used fuel (k + 1) (base ++ "_" ++ Nat.repr k) else cand
 
-/-- `rename_function` (short mapper or clean-up) wrapped by `_handle_attrname_conflict`. -/
+/-- the layer `_handle_attrname_conflict` puts over a base name `nn`: names that are not attribute parameters
+    pass; an attribute parameter's name is replaced by its cached alternate, or by the first of
+    `nn, nn_0, nn_1, …` that is not in `_names_used` (which is then cached and marked used) -/
+def conflictStep (ar : List (String × Option String)) (nu : List String) (nn : String) :
+    String × List (String × Option String) × List String :=
+  match ar.lookup nn with
+  | none => (nn, ar, nu)
+  | some (some alt) => (alt, ar, nu)
+  | some none =>
+    let cand := findCand nn nu (nu.length + 1) 0 nn
+    (cand, (nn, some cand) :: ar, cand :: nu)
+
+/-- a sequence of requests to the conflict layer -/
+def conflictRun (ar : List (String × Option String)) (nu : List String) :
+    List String → List String × List (String × Option String) × List String
+  | [] => ([], ar, nu)
+  | nn :: rest =>
+    let r := conflictStep ar nu nn
+    let rs := conflictRun r.2.1 r.2.2 rest
+    (r.1 :: rs.1, rs.2)
+
+/-- `rename_function` (short mapper or unique-name mapper) wrapped by `_handle_attrname_conflict`. -/
 def newRenamer (o : Opts) (st : St) (name : String) : String × St :=
   let (nn, st) := if o.rename then shortName st name else uniqueName st name
-  match st.attrRen.lookup nn with
-  | none => (nn, st)
-  | some (some alt) => (alt, st)
-  | some none =>
-    let cand := findCand nn st.namesUsed (st.namesUsed.length + 1) 0 nn
-    (cand, { st with attrRen := (nn, some cand) :: st.attrRen, namesUsed := cand :: st.namesUsed })
+  let r := conflictStep st.attrRen st.namesUsed nn
+  (r.1, { st with attrRen := r.2.1, namesUsed := r.2.2 })
 
 def lookupRemap : List (List (String × String)) → String → Option String
   | [], _ => none
@@ -629,6 +646,36 @@ def translateGraph (o : Opts) (d : Nat) (m : ModelP) (st0 : St) : R :=
 
 def exportModel (o : Opts) (d : Nat) (m : ModelP) : Except Err (List String) :=
   (translateGraph o d m {}).map (·.1)
+
+/-- `_translate_opset_imports_of`: one line per opset import — `from onnxscript.onnx_opset import opsetN` for the
+    standard domains, `alias = Opset('domain', version)` otherwise; for a FunctionProto additionally the function's
+    own domain at version 1 when it is not imported.  Printed as `alias` resp. `alias=domain:version`. -/
+def importTok (dv : String × Nat) : String :=
+  if dv.1 == "" || dv.1 == "ai.onnx" then opsetName dv.1 dv.2
+  else opsetName dv.1 dv.2 ++ "=" ++ dv.1 ++ ":" ++ Nat.repr dv.2
+
+def importsLine (imports : List (String × Nat)) (funDomain : Option String) : String :=
+  let extra := match funDomain with
+    | some d => if imports.any (·.1 == d) then [] else [(d, 1)]
+    | none => []
+  "imports " ++ comma ((imports ++ extra).map importTok)
+
+/-- `export()` on a ModelProto with model-local functions: `_translate_function` for each function in order, then
+    `_translate_graph`, all on the same exporter state (renaming tables, inlined constants persist) -/
+def functionsLoop (o : Opts) (d : Nat) : List FunctionP → St → R
+  | [], st => .ok ([], st)
+  | f :: fs, st =>
+    match translateFunction o d f st with
+    | .error e => .error e
+    | .ok (p1, st) =>
+      match functionsLoop o d fs st with
+      | .error e => .error e
+      | .ok (p2, st) => .ok (p1 ++ p2, st)
+
+def exportModelF (o : Opts) (d : Nat) (fs : List FunctionP) (m : ModelP) : Except Err (List String) :=
+  match functionsLoop o d fs {} with
+  | .error e => .error e
+  | .ok (pf, st) => (translateGraph o d m st).map (fun r => pf ++ r.1)
 
 def exportFunction (o : Opts) (d : Nat) (f : FunctionP) : Except Err (List String) :=
   (translateFunction o d f {}).map (·.1)
